@@ -219,3 +219,50 @@ def run_C14(ctx):
 
 
 RUNNERS["C14"] = run_C14
+
+
+# ------------------------------------------------------------------ C19 (AwkwardForth)
+def _forth_phase(ctx, name, prims, ctrl, maxlen, stackmax=4, recmax=1024, fuel=60, inp="<<1, 255, 128, 7>>", simulate=None):
+    consts = dict(Prims=prims, Ctrl=ctrl, MaxLen=str(maxlen), StackMax=str(stackmax), RecMax=str(recmax),
+                  Input=inp, Fuel=str(fuel), EmitOn="TRUE")
+    ctx.tlc_phase(name, "Forth", consts, invariants=["RunBalanced", "PosInRange"], init="FInit", next_="FNext",
+                  view=(None if simulate else "FView"), action_constraints=["FEmit"], translate=("replay", "steps_forth"),
+                  judge_fn=("replay", "judge_forth"), require_actions=([] if simulate else ["AppendPrim", "Execute"]),
+                  simulate=("num=%d" % simulate if simulate else None), depth=(maxlen * 2 + 4 if simulate else None),
+                  java_opts=["-Xss512m"])
+
+
+def run_C19(ctx):
+    ctx.build("opt")
+    q = ctx.quick()
+    _forth_phase(ctx, "stack-arith",
+                 '{Lit(0), Lit(1), Lit(3), Lit(-2), W("dup"), W("drop"), W("swap"), W("over"), W("rot"), W("nip"), W("tuck"), '
+                 'W("+"), W("-"), W("*"), W("/"), W("mod"), W("/mod"), W("negate"), W("abs"), W("min"), W("max"), W("="), W("<"), '
+                 'W(">="), W("0="), W("invert"), W("and"), W("or"), W("xor"), W("true")}', "{}", 3 if q else 4, stackmax=3)
+    _forth_phase(ctx, "control",
+                 '{Lit(0), Lit(1), Lit(3), W("dup"), W("+"), W("1-"), W("i"), W("j"), W("0="), [k |-> "get"], [k |-> "inc"], '
+                 '[k |-> "put"], [k |-> "write"], W("halt")}',
+                 '{"if", "ifelse", "do", "+do", "until", "while", "def"}', 4 if q else 5)
+    _forth_phase(ctx, "input-output",
+                 '{Lit(0), Lit(1), Lit(-1), Lit(5), W("dup"), W("drop"), W("+"), [k |-> "read", ty |-> "b"], [k |-> "read", ty |-> "B"], '
+                 '[k |-> "read", ty |-> "h"], [k |-> "read", ty |-> "!h"], [k |-> "read", ty |-> "H"], [k |-> "read", ty |-> "!H"], '
+                 '[k |-> "in", w |-> "len"], [k |-> "in", w |-> "pos"], [k |-> "in", w |-> "end"], [k |-> "in", w |-> "seek"], '
+                 '[k |-> "in", w |-> "skip"], [k |-> "write"], [k |-> "writeadd"], [k |-> "outlen"]}',
+                 '{"until"}', 3 if q else 4, stackmax=3)
+    _forth_phase(ctx, "recursion-limit",
+                 '{Lit(0), Lit(1), W("dup"), W("1-"), [k |-> "call"], [k |-> "inc"]}', '{"def", "if", "do", "until"}',
+                 4 if q else 5, recmax=3, fuel=80, inp="<<1>>")
+    # nested loops, exhaustively over a tiny vocabulary
+    _forth_phase(ctx, "nested-loops", '{Lit(0), Lit(2), W("i")}', '{"do", "+do"}', 7 if q else 8, stackmax=6, fuel=80, inp="<<1>>")
+    # deeper, nested control flow: behaviours sampled at random from the same machine (TLC -simulate)
+    _forth_phase(ctx, "nested-control-simulate",
+                 '{Lit(0), Lit(1), Lit(2), Lit(4), W("i"), W("j"), W("+"), W("dup"), [k |-> "write"], [k |-> "inc"]}',
+                 '{"if", "ifelse", "do", "+do", "until", "def"}', 11, stackmax=8, fuel=150, simulate=(20000 if q else 400000))
+    return ctx.finish(rule="one case = one program (all programs over the phase's vocabulary up to the size bound that terminate within "
+                           "the fuel); each is executed under run / begin+step* on the other machine width with minimal output "
+                           "buffers / with a pause inserted and resume* / after decompilation, and all four must reach the documented state",
+                      assumptions=["values stay small: wrap-around at the machine width is exercised only implicitly",
+                                   "varint/zigzag/nbit/float reads, strings, and case/ofs words are not in the vocabulary yet"])
+
+
+RUNNERS["C19"] = run_C19
